@@ -300,10 +300,10 @@ float can_decode_signal_as_float(const CanFrame *msg, uint32_t start, uint32_t l
 
 uint64_t can_encode_signal_from_float(float signal, uint32_t start, uint32_t length, float scale,
                                       float offset, bool is_big_endian) {
-    u_f32 bitfield =
-        set_bitfield_float(apply_linear_float(signal, 1 / scale, -offset), start, length);
+    u_f32 value = {.f = apply_linear_float(signal, 1 / scale, -offset)};
+    uint64_t bitfield = set_bitfield(value.i, start, length);
 
-    return is_big_endian ? swap_bytes_int(bitfield.i, U32) : bitfield.i;
+    return is_big_endian ? swap_bytes_int(bitfield, U32) : bitfield;
 }
 
 int64_t can_decode_signal_as_int64_t(const CanFrame *msg, uint32_t start, uint32_t length,
